@@ -19,10 +19,11 @@ theorem filter_ne_of_not_mem {l : List Key} {s : Key} (h : s ∉ l) (p : Key →
   intro e; subst e; exact h hx
 
 /-- erasing the element that carries key `s` -/
-theorem eraseIdx_idx {cs : List α} {s : Key} (hu : (ks kt cs).Nodup) (hs : s ∈ ks kt cs) :
+theorem eraseIdx_idx {cs : List α} {s : Key} (hu : SomeNodup (ks kt cs)) (hs : s ∈ ks kt cs)
+    (hsm : s.isSome = true) :
     ks kt (cs.eraseIdx (idx kt cs s)) = (ks kt cs).filter (fun x => !(x == s)) ∧
     nk kt (cs.eraseIdx (idx kt cs s)) = nk kt cs := by
-  obtain ⟨a, x, b, h1, h2, h3, h4, h5⟩ := idx_split_nodup kt hu hs
+  obtain ⟨a, x, b, h1, h2, h3, h4, h5⟩ := idx_split_nodup kt hu hs hsm
   rw [← h2, h1]
   have : (a ++ x :: b).eraseIdx a.length = a ++ b := by
     simp [List.eraseIdx_append_of_length_le]
@@ -169,8 +170,9 @@ theorem swapKeys_cons (a b x : Key) (l : List Key) :
     swapKeys a b (x :: l) = (if x = a then b else if x = b then a else x) :: swapKeys a b l := by
   simp [swapKeys]
 
-theorem swap_lt {cs : List α} {sa sb : Key} (hu : (ks kt cs).Nodup) {i j : Nat} (hij : i < j)
-    (hj : j < cs.length) (ha : kt (cs[i]'(by omega)) = some sa) (hb : kt cs[j] = some sb) :
+theorem swap_lt {cs : List α} {sa sb : Key} (hu : SomeNodup (ks kt cs)) {i j : Nat} (hij : i < j)
+    (hj : j < cs.length) (ha : kt (cs[i]'(by omega)) = some sa) (hb : kt cs[j] = some sb)
+    (hsa : sa.isSome = true) (hsb : sb.isSome = true) :
     ks kt (swapNodes cs i j) = swapKeys sa sb (ks kt cs) ∧ nk kt (swapNodes cs i j) = nk kt cs := by
   obtain ⟨a, x, b, y, c, h1, h2, h3, hx, hy⟩ := split_two cs i j hij hj
   rw [← hx] at ha; rw [← hy] at hb
@@ -180,38 +182,36 @@ theorem swap_lt {cs : List α} {sa sb : Key} (hu : (ks kt cs).Nodup) {i j : Nat}
   simp only [ks_append, ks_cons_some kt ha, ks_cons_some kt hb] at hu ⊢
   simp only [nk_append, nk_cons_some kt ha, nk_cons_some kt hb, and_true]
   -- read the uniqueness facts
-  rw [List.nodup_append] at hu
-  obtain ⟨_, hu2, hu3⟩ := hu
-  rw [List.nodup_cons, List.nodup_append] at hu2
-  obtain ⟨hu4, _, hu5, hu6⟩ := hu2
-  rw [List.nodup_cons] at hu5
-  have a_a : sa ∉ ks kt a := fun h => hu3 sa h sa (List.mem_cons_self) rfl
-  have b_a : sb ∉ ks kt a := fun h => hu3 sb h sb (by simp) rfl
+  have hu2 := hu.append_right
+  have hu4 := hu2.not_mem hsa
+  have hu5 := hu2.tail
+  have a_a : sa ∉ ks kt a := fun h => hu.disjoint hsa h List.mem_cons_self
+  have b_a : sb ∉ ks kt a := fun h => hu.disjoint hsb h (by simp)
   have a_b : sa ∉ ks kt b := fun h => hu4 (by simp [h])
   have a_c : sa ∉ ks kt c := fun h => hu4 (by simp [h])
   have hne : sa ≠ sb := fun h => hu4 (by simp [h])
-  have b_b : sb ∉ ks kt b := fun h => hu6 sb h sb (List.mem_cons_self) rfl
-  have b_c : sb ∉ ks kt c := hu5.1
+  have b_b : sb ∉ ks kt b := fun h => hu5.disjoint hsb h List.mem_cons_self
+  have b_c : sb ∉ ks kt c := hu5.append_right.not_mem hsb
   simp only [swapKeys_append, swapKeys_cons, swapKeys_fix a_a b_a, swapKeys_fix a_b b_b,
     swapKeys_fix a_c b_c, if_true]
   have : sb ≠ sa := fun h => hne h.symm
   simp [this]
 
-theorem swap_idx {cs : List α} {sa sb : Key} (hu : (ks kt cs).Nodup) (ha : sa ∈ ks kt cs)
-    (hb : sb ∈ ks kt cs) :
+theorem swap_idx {cs : List α} {sa sb : Key} (hu : SomeNodup (ks kt cs)) (ha : sa ∈ ks kt cs)
+    (hb : sb ∈ ks kt cs) (hsa : sa.isSome = true) (hsb : sb.isSome = true) :
     ks kt (swapNodes cs (idx kt cs sa) (idx kt cs sb)) = swapKeys sa sb (ks kt cs) ∧
     nk kt (swapNodes cs (idx kt cs sa) (idx kt cs sb)) = nk kt cs := by
   obtain ⟨ha1, ha2⟩ := idx_spec kt ha
   obtain ⟨hb1, hb2⟩ := idx_spec kt hb
   rcases Nat.lt_trichotomy (idx kt cs sa) (idx kt cs sb) with h | h | h
-  · exact swap_lt kt hu h hb1 ha2 hb2
+  · exact swap_lt kt hu h hb1 ha2 hb2 hsa hsb
   · have : sa = sb := by
       have e : kt cs[idx kt cs sa] = kt cs[idx kt cs sb] := by simp only [h]
       rw [ha2, hb2] at e; exact Option.some.inj e
     subst this
     rw [swapNodes_self, swapKeys_self]; exact ⟨rfl, rfl⟩
   · rw [swapNodes_comm, swapKeys_comm]
-    exact swap_lt kt hu h ha1 hb2 ha2
+    exact swap_lt kt hu h ha1 hb2 ha2 hsb hsa
 
 /-! ### move -/
 
@@ -233,9 +233,10 @@ theorem moveNodes_form (cs : List α) (src : List Nat) (before : Option Nat) :
       ((cs.zipIdx.filter (fun p => !src.contains p.2)).drop pos).map (·.1) := ⟨_, rfl⟩
 
 theorem moveNodes_nk {cs : List α} {ss : List Key}
-    (hu : (ks kt cs).Nodup) (hss : ∀ s ∈ ss, s ∈ ks kt cs) (before : Option Nat) :
+    (hu : SomeNodup (ks kt cs)) (hss : ∀ s ∈ ss, s ∈ ks kt cs) (hsm : ∀ s ∈ ss, s.isSome = true)
+    (before : Option Nat) :
     nk kt (moveNodes cs (ss.map (idx kt cs)) before) = nk kt cs := by
-  have hrest := moveNodes_rest kt hu hss
+  have hrest := moveNodes_rest kt hu hss hsm
   obtain ⟨pos, hpos⟩ := moveNodes_form cs (ss.map (idx kt cs)) before
   rw [hpos]
   simp only [hrest]
